@@ -226,9 +226,9 @@ fn serve(mut s: TcpStream, addr: usize, mode: Arc<AtomicU8>, probes: Arc<Mutex<V
             // the record is written before the bytes: whoever reads the answer finds the record
             log(what, partial);
             if partial {
-                let _ = s.write_all(&resp.as_bytes()[..10]);
+                let _ = s.write_all(&resp.as_bytes()[..9]);
                 std::thread::sleep(Duration::from_millis(120));
-                let _ = s.write_all(&resp.as_bytes()[10..]);
+                let _ = s.write_all(&resp.as_bytes()[9..]);
             } else {
                 let _ = s.write_all(resp.as_bytes());
             }
